@@ -24,6 +24,7 @@ def parseVal (s : String) : Option Val :=
   | 'u' :: r => (String.ofList r).toNat?.map Val.u
   | 'b' :: r => (bytesOfHex (String.ofList r)).map Val.b
   | 'x' :: r => (bytesOfHex (String.ofList r)).map Val.x
+  | ['e'] => some Val.e
   | _ => none
 
 def parseVals (s : String) : Option (List Val) := (splitList s).mapM parseVal
@@ -42,6 +43,7 @@ def showVal : Val → String
   | .u n => s!"u{n}"
   | .b bs => "b" ++ hexOrDash bs
   | .x p => "x" ++ hexOrDash p
+  | .e => "e"
 
 def showIo : IoKind → String
   | .unexpectedEof => "eof" | .writeZero => "zero" | .interrupted => "intr"
